@@ -93,7 +93,7 @@ def run_case(case):
 def programs(tier, seed):
     quick = tier == 'quick'
     for tag, s in seeds.all_seeds():
-        if tag.startswith(('d8', 'd12', 'd15', 'd1_', 'd2_', 'd3_', 'star_import')):
+        if tag.startswith(('d8', 'd12', 'd15', 'star_import')):
             continue
         yield 'seed:' + tag, s
     trig = list(triggergen.cases())
@@ -154,7 +154,7 @@ def self_hosting(run):
             env['PYTHONPATH'] = src_dir
             env['PYMINIFY_FORCE_BEST_EFFORT'] = '1'
             xml = os.path.join(tmp, label + '.xml')
-            subprocess.run([common.VENV_PY, '-m', 'pytest', '-q', '-p', 'no:cacheprovider', '-x', '--no-header', '-o', 'addopts=', os.path.join(common.REPO, 'test'),
+            subprocess.run([common.VENV_PY, '-m', 'pytest', '-q', '-p', 'no:cacheprovider', '-x', '--no-header', '-o', 'addopts=', (os.path.join(common.REPO, 'test') if os.path.isdir(os.path.join(common.REPO, 'test')) else '/repo/test'),
                             '--junitxml=' + xml, '--rootdir', tmp, '-c', os.devnull],
                            cwd=tmp, env=env, stdout=subprocess.PIPE, stderr=subprocess.STDOUT, timeout=900)
             import xml.etree.ElementTree as ET
